@@ -60,7 +60,7 @@ def base_packets():
     P.append(hdr(7, 0x8180, 1, 1, 0, 0) + [0, 0, 1, 0, 1] + rr([0], 1, 1, [1, 1, 1, 1]))
     # 8 (appended below): records that point at names of earlier records of their own section
     # 7: OPT first then two records that share a suffix, DNAME in authority
-    P.append(hdr(8, 0x8180, 1, 0, 1, 3) + q + rr(ptr(14), 39, 10, name("d", "ex")) + opt() + rr([1, 97] + ptr(14), 1, 2, [1, 0, 0, 1]) + rr([1, 98] + ptr(14), 28, 2, [0] * 16))
+    P.append(hdr(8, 0x8180, 1, 0, 1, 3) + q + rr(ptr(14), 39, 10, name("d", "ex")) + opt([(8, [0, 1, 24, 0, 192, 0, 2])]) + rr([1, 97] + ptr(14), 1, 2, [1, 0, 0, 1]) + rr([1, 98] + ptr(14), 28, 2, [0] * 16))
     base = 12 + len(q)
     an_a = rr(name("sip", "ex"), 1, 11, [1, 1, 1, 1])
     an_b = rr(ptr(base), 28, 12, [0] * 15 + [1])
@@ -68,7 +68,7 @@ def base_packets():
     ar_a = rr(name("glue", "ex"), 1, 21, [2, 2, 2, 2])
     ar_b = rr(ptr(ar0), 28, 22, [0] * 15 + [2])
     ar_c = rr([1, 119] + ptr(ar0), 1, 23, [3, 3, 3, 3])
-    P.append(hdr(9, 0x8180, 1, 2, 0, 4) + q + an_a + an_b + ar_a + ar_b + opt() + ar_c)
+    P.append(hdr(9, 0x8180, 1, 2, 0, 4) + q + an_a + an_b + ar_a + ar_b + opt([(10, [1, 2, 3, 4, 5, 6, 7, 8]), (12, []), (3, [0xAA])]) + ar_c)
     return P
 
 
@@ -178,6 +178,11 @@ def simple_ops():
 
 def cursor_ops():
     ops = []
+    # readers of the EDNS options (pseudo-section "E"): advance, decompress in place through them
+    for adv in range(0, 3):
+        for subs in ([("uncompress", []), ("next", [])], [("next", []), ("uncompress", []), ("next", [])], [("uncompress", []), ("uncompress", []), ("next", []), ("next", [])],
+                     [("set_raw_name", name("a")), ("delete", []), ("set_ttl", [0, 0, 0, 1]), ("next", [])]):
+            ops.append(cursor_op("E", False, adv, subs))
     for sec, incl in (("Q", False), ("AN", False), ("NS", False), ("AR", False), ("AR", True)):
         for adv in range(0, 3):
             for s, a in sub_menu():
